@@ -20,8 +20,8 @@ Every operation is written as the Go code is (in-place writes, `append` within c
 
 Not modelled: tag values, IDs, polygons, collection keys/values are opaque immutable strings (the API
 has no operation that mutates one in place: `Set`/`ModifyOrAddTagAt` build a new `Expressions`);
-`append`'s capacity growth (a re-allocation gives exact fit — unobservable unless two live slices share
-an array, which is what `Sep` excludes); validation, search index and reference table of the worlds
+the exact amount of spare capacity `append` leaves on re-allocation (`growPad`: doubling; unobservable
+unless two live slices share an array, which is what `Sep` excludes); validation, search index and reference table of the worlds
 (C12/C13/C15); `SetTags`/`SetPathIDs` are given fresh literals (they store the caller's slice as is).
 -/
 namespace B6.Model.FeatureHeap
@@ -67,7 +67,21 @@ def write (st : Store) (s : Option Slice) (i : Nat) (c : Cell) : Option Store :=
     | some arr =>
       if i < s.len ∧ s.len ≤ arr.length then some (st.set s.addr (arr.set i c)) else none
 
-/-- `append(s, cs...)`: in place when `len + |cs| ≤ cap`, else a new array -/
+/-- a new backing array with `extra` zeroed spare elements behind the visible ones (`cap = len + extra`) -/
+def allocCap (st : Store) (cs pad : List Cell) : Store × Slice := (st ++ [cs ++ pad], ⟨st.length, cs.length⟩)
+
+def zeroLike : Cell → Cell
+  | .pair _ _ => .pair "" ""
+  | .scalar _ => .scalar ""
+
+/-- spare capacity Go's `growslice` leaves when `append` has to re-allocate (small slices: the capacity at
+least doubles; size-class rounding and the ≥256-element regime are not reproduced — no theorem depends on
+the amount, `append_cells`/`mergeInto_cells` hold for every capacity) -/
+def growPad (oldCap needed : Nat) (cs : List Cell) : List Cell :=
+  List.replicate (max (2 * oldCap) needed - needed) (zeroLike (cs.headD (.scalar "")))
+
+/-- `append(s, cs...)`: in place when `len + |cs| ≤ cap` — the classic aliasing slip: another header over
+the same array sees (or loses) the written elements — else a new, larger array -/
 def append (st : Store) (s : Option Slice) (cs : List Cell) : Option (Store × Option Slice) :=
   match s with
   | none => if cs = [] then some (st, none) else some ((alloc st cs).1, some (alloc st cs).2)
@@ -79,7 +93,8 @@ def append (st : Store) (s : Option Slice) (cs : List Cell) : Option (Store × O
         if s.len + cs.length ≤ arr.length then
           some (st.set s.addr (arr.take s.len ++ cs ++ arr.drop (s.len + cs.length)),
                 some ⟨s.addr, s.len + cs.length⟩)
-        else some ((alloc st (arr.take s.len ++ cs)).1, some (alloc st (arr.take s.len ++ cs)).2)
+        else some ((allocCap st (arr.take s.len ++ cs) (growPad arr.length (s.len + cs.length) cs)).1,
+                   some (allocCap st (arr.take s.len ++ cs) (growPad arr.length (s.len + cs.length) cs)).2)
       else none
 
 /-- the idiom of `Tags.MergeFrom`, `RelationFeature.MergeFrom`, `AreaMembers.MergeFrom`:
@@ -456,6 +471,50 @@ def newFeat (st : Store) (kind : Kind) (id : String) (n : Nat) : Store × Feat :
     (m.1, { kind := .relation, id := id, members := some m.2 })
   | .collection => (st, { kind := .collection, id := id })
 
+/-! ## `NewFeatureFromWorld` (`New{Generic,Area,Relation,Collection}FeatureFromWorld`) -/
+
+/-- the polygons array `NewAreaFeatureFromWorld` builds: `SetPathIDs` leaves nil where the member has
+paths, `SetPolygon(i, a.Polygon(i))` copies the pointer otherwise -/
+def fromWorldPolygons : List (Option Slice) → List Cell → List Cell
+  | [], _ => []
+  | _ :: ids, [] => Cell.scalar "" :: fromWorldPolygons ids []
+  | some _ :: ids, _ :: ps => Cell.scalar "" :: fromWorldPolygons ids ps
+  | none :: ids, p :: ps => p :: fromWorldPolygons ids ps
+
+/-- the copy a caller (or `MutableOverlayWorld.AddTag` for a base feature) takes of a feature of a world:
+everything is built afresh — `AllTags().Clone()`, `make`d path-id lists, `NewRelationFeature(n)` filled
+member by member, keys and values `append`ed one by one (nil when there are none) -/
+def fromWorld (st : Store) (w : Feat) : Option (Store × Feat) :=
+  match cloneMake st w.tags with
+  | none => none
+  | some t =>
+    match w.kind with
+    | .generic => some (t.1, { kind := .generic, id := w.id, tags := t.2 })
+    | .area =>
+      match cloneInner t.1 w.ids with
+      | none => none
+      | some i =>
+        match cells i.1 w.polygons with
+        | none => none
+        | some ps =>
+          if ps.length ≠ w.ids.length then none else
+          let p := alloc i.1 (fromWorldPolygons w.ids ps)
+          some (p.1, { kind := .area, id := w.id, tags := t.2, ids := i.2, polygons := some p.2 })
+    | .relation =>
+      match cloneMake t.1 w.members with
+      | none => none
+      | some m => some (m.1, { kind := .relation, id := w.id, tags := t.2, members := m.2 })
+    | .collection =>
+      match cells t.1 w.keys, cells t.1 w.values with
+      | some ks, some vs =>
+        if ks.length ≠ vs.length then none else
+        if ks = [] then some (t.1, { kind := .collection, id := w.id, tags := t.2, sorted := w.sorted }) else
+        let k := alloc t.1 ks
+        let v := alloc k.1 vs
+        some (v.1, { kind := .collection, id := w.id, tags := t.2, keys := some k.2, values := some v.2,
+                     sorted := w.sorted })
+      | _, _ => none
+
 /-! ## a mutable world and its callers -/
 
 structure State where
@@ -479,6 +538,8 @@ inductive Op where
   | wtag (kind : Kind) (id k v : String)
   /-- `world.RemoveTag(id, k)` on a stored feature (in-place `RemoveTag`) -/
   | wrm (kind : Kind) (id k : String)
+  /-- `vars.push(NewFeatureFromWorld(world.FindFeatureByID(id)))` -/
+  | fromWorld (kind : Kind) (id : String)
 deriving Repr, DecidableEq
 
 def findEntry (kind : Kind) (id : String) : List Feat → Option Nat
@@ -527,6 +588,14 @@ def step (s : State) : Op → Option State
       match s.world[w]? with
       | none => none
       | some e => (mutate s.st e (.rmTag k)).map fun r => { s with st := r.1, world := s.world.set w r.2 }
+
+  | .fromWorld kind id =>
+    match findEntry kind id s.world with
+    | none => none
+    | some w =>
+      match s.world[w]? with
+      | none => none
+      | some e => (fromWorld s.st e).map fun r => { s with st := r.1, vars := s.vars ++ [r.2] }
 
 def run (s : State) : List Op → Option State
   | [] => some s
